@@ -47,13 +47,17 @@ Inductive op :=
 | OLabel (l : N)           (* SendLabel(val ot.Label), 128-bit, D0 high *)
 | OSizes (l : list Z)      (* SendInputSizes(sizes []int) *)
 | OFlush                   (* Flush() *)
-| OClose.                  (* Close() *)
+| OClose                   (* Close() *)
+| ORaw (n : N) (bs : list N).
+      (* the in-place write API (circuit.Streaming.Garble): NeedSpace(n), then the caller
+         stores bs (at most n bytes) at WriteBuf[WritePos:] and advances WritePos *)
 
-Inductive ty := TByte | TU16 | TU32 | TData | TString | TLabel | TSizes.
+Inductive ty := TByte | TU16 | TU32 | TData | TString | TLabel | TSizes
+| TRaw (k : N).   (* the in-place read API: Fill(k) unless k bytes are in the window, then ReadBuf[ReadStart:ReadStart+k]; ReadStart += k *)
 
 Inductive val :=
 | VByte (b : N) | VU16 (v : N) | VU32 (v : N) | VData (d : list N)
-| VString (d : list N) | VLabel (l : N) | VSizes (l : list N).
+| VString (d : list N) | VLabel (l : N) | VSizes (l : list N) | VRaw (bs : list N).
 
 (* wire encoding of a value (what the matching Send writes) *)
 Definition encode (v : val) : list N :=
@@ -65,6 +69,7 @@ Definition encode (v : val) : list N :=
   | VString d => be 4 (nlen d) ++ d
   | VLabel l => be 16 l
   | VSizes l => be 4 (nlen l) ++ concat (map (be 4) l)
+  | VRaw bs => bs
   end.
 
 (* the value a send op puts on the wire (None for Flush/Close) *)
@@ -78,12 +83,14 @@ Definition value_of (o : op) : option val :=
   | OLabel l => Some (VLabel (l mod 2 ^ 128))
   | OSizes l => Some (VSizes (map u32_of_Z l))
   | OFlush | OClose => None
+  | ORaw _ bs => Some (VRaw bs)
   end.
 
 Definition type_of_val (v : val) : ty :=
   match v with
   | VByte _ => TByte | VU16 _ => TU16 | VU32 _ => TU32 | VData _ => TData
   | VString _ => TString | VLabel _ => TLabel | VSizes _ => TSizes
+  | VRaw bs => TRaw (nlen bs)
   end.
 
 Fixpoint values_of (ops : list op) : list val :=
@@ -179,6 +186,7 @@ Definition step (s : sender) (o : op) : sender :=
   | OSizes l => send_sizes l s
   | OFlush => flush_buf s
   | OClose => close_conn s
+  | ORaw n bs => put n bs s        (* NeedSpace(n) = the same test-and-Flush as in the Send* methods *)
   end.
 
 Definition run_sender (ops : list op) : sender := fold_left step ops s_init.
@@ -335,6 +343,7 @@ Definition recv_ty (t : ty) (r : receiver) : receiver * (val + rerr) :=
   | TString => wrap VString (recv_data r)
   | TLabel => wrap VLabel (recv_num 16 r)
   | TSizes => wrap VSizes (recv_sizes r)
+  | TRaw k => wrap VRaw (recv_fixed k r)
   end.
 
 (* the matching sequence of typed receives; stops at the first error *)
@@ -401,6 +410,7 @@ Definition parse_ty (t : ty) (s : list N) : option (val * list N) :=
   | TString => omap VString (parse_data s)
   | TLabel => omap VLabel (parse_num 16 s)
   | TSizes => omap VSizes (parse_sizes s)
+  | TRaw k => omap VRaw (parse_fixed k s)
   end.
 
 Fixpoint parse_all (tys : list ty) (s : list N) : option (list val * list N) :=
